@@ -512,7 +512,11 @@ def junk_lines(chk, quick):
                     ext["extension_type"] = et
                 d = dict(ident21, extensions={ext_id: ext}, **(members if where == "toplevel" else {}))
                 for strict in (True, False):
-                    lines.append(junk_one("registered_extension_claims_%r_%s_%s" % (et, where, ext_id[22:23]), d, "2.1", strict))
+                    ln = junk_one("registered_extension_claims_%r_%s_%s" % (et, where, ext_id[22:23]), d, "2.1", strict)
+                    ln["strict"] = False        # these extensions are registered by the harness, the frozen model does not know them: the output is not judged (C17 only)
+                    ln.pop("output", None)
+                    ln["doc"] = {"key": "objects:?", "props": []}
+                    lines.append(ln)
     # deep nesting (termination)
     for depth in (200, 400):          # 400/800 JSON nesting levels: still decodable by this interpreter's json module
         deep = "x"
